@@ -1,13 +1,14 @@
 (** extraction entry point for the C29 / C30 correspondence checks and judges *)
-(* built before extraction (lib/vplib.py Model reads these names): ErgV.Common.Sx ErgV.Els.Model ErgV.Els.Spec *)
+(* built before extraction (lib/vplib.py Model reads these names): ErgV.Common.Sx ErgV.Els.Model ErgV.Els.Spec ErgV.Els.Rename ErgV.Els.SpecRename *)
 From Coq Require Import ZArith List Bool Arith.
 From ErgV Require Import Common.Sx Els.Model Els.Spec.
+From ErgV Require Els.Rename Els.SpecRename.
 Import ListNotations.
 Open Scope Z_scope.
 
 (** C29.  The instance used for the correspondence: lowering always succeeds, the "diagnostics" are the checked
     text itself (so the output says WHICH text's analysis is on display). *)
-Definition x_lower (c : chunk) : option hchunk := Some c.
+Definition x_lower (c : chunk) : lowered := LSome c.
 Definition x_name (c : Z) : Z := 0.
 Definition x_failed (h : hchunk) : bool := false.
 Definition x_check (t : text) : text := t.
@@ -52,6 +53,48 @@ Fixpoint c29_run (s : fstate text) (evs : list sx) : list sx :=
 
 Definition dec_diags (x : sx) : list diag := map sx_zs (sx_l x).
 
+(** C30.  expr  = (0 p x) | (1 n) | (2 (code points)) | (3 a b) | (4 f a) | (5 f a b)
+           block = (0 e) | (1 p x e k) | (2 p f p1 x1 d body k) with d = () or (p2 x2 e) | (3 e k) *)
+
+Fixpoint dec_expr (fuel : nat) (x : sx) : Rename.expr :=
+  match fuel with
+  | O => Rename.Lit 0
+  | S f =>
+    let k := sx_z (sx_nth x 0) in
+    if k =? 0 then Rename.Var (sx_z (sx_nth x 1)) (sx_z (sx_nth x 2))
+    else if k =? 1 then Rename.Lit (sx_z (sx_nth x 1))
+    else if k =? 2 then Rename.Str (sx_zs (sx_nth x 1))
+    else if k =? 3 then Rename.Add (dec_expr f (sx_nth x 1)) (dec_expr f (sx_nth x 2))
+    else if k =? 4 then Rename.Call1 (dec_expr f (sx_nth x 1)) (dec_expr f (sx_nth x 2))
+    else Rename.Call2 (dec_expr f (sx_nth x 1)) (dec_expr f (sx_nth x 2)) (dec_expr f (sx_nth x 3))
+  end.
+
+Fixpoint dec_block (fuel : nat) (x : sx) : Rename.block :=
+  match fuel with
+  | O => Rename.Ret (Rename.Lit 0)
+  | S f =>
+    let k := sx_z (sx_nth x 0) in
+    if k =? 0 then Rename.Ret (dec_expr f (sx_nth x 1))
+    else if k =? 1 then Rename.Def (sx_z (sx_nth x 1)) (sx_z (sx_nth x 2)) (dec_expr f (sx_nth x 3)) (dec_block f (sx_nth x 4))
+    else if k =? 2 then
+      let d := sx_nth x 5 in
+      Rename.Fun (sx_z (sx_nth x 1)) (sx_z (sx_nth x 2)) (sx_z (sx_nth x 3)) (sx_z (sx_nth x 4))
+            (match sx_l d with
+             | [] => None
+             | _ => Some (sx_z (sx_nth d 0), sx_z (sx_nth d 1), dec_expr f (sx_nth d 2))
+             end)
+            (dec_block f (sx_nth x 6)) (dec_block f (sx_nth x 7))
+    else Rename.Print (dec_expr f (sx_nth x 1)) (dec_block f (sx_nth x 2))
+  end.
+
+Definition enc_value (v : Rename.value) : sx :=
+  match v with
+  | Rename.VInt z => SL [SZ 0; SZ z]
+  | Rename.VStr s => SL [SZ 1; sx_of_zs s]
+  | Rename.VClo _ _ _ _ _ => SL [SZ 2]
+  | Rename.VErr => SL [SZ 3]
+  end.
+
 Definition run (x : sx) : sx :=
   let mode := sx_z (sx_nth x 0) in
   if mode =? 0 then
@@ -62,6 +105,28 @@ Definition run (x : sx) : sx :=
   else if mode =? 1 then
     (* (1 incremental_diags fresh_diags) -> judge *)
     sx_bool (judge (dec_diags (sx_nth x 1)) (dec_diags (sx_nth x 2)))
+  else if mode =? 2 then
+    (* (2 prog y) -> (positions_distinct y_fresh ((binder_pos name (occurrences) agrees) ...)): the model of what a
+       rename of each binder must edit, and the hypotheses of the theorems *)
+    let t := dec_block 200 (sx_nth x 1) in
+    let y := sx_z (sx_nth x 2) in
+    SL [ sx_bool (SpecRename.nodupb (Rename.poss t)); sx_bool (negb (existsb (Z.eqb y) (Rename.names t)));
+         SL (map (fun b => let o := Rename.occ (fst b) [] t in
+                           SL [SZ (fst b); SZ (snd b); sx_of_zs o; sx_bool (Rename.agrees (Rename.mem o) (fst b) [] t)])
+                 (Rename.binders t)) ]
+  else if mode =? 3 then
+    (* (3 prog fuel) -> (printed values, result) of the core's evaluator *)
+    let t := dec_block 200 (sx_nth x 1) in
+    let r := Rename.run_prog (sx_to_nat (sx_nth x 2)) t in
+    SL [SL (map enc_value (fst r)); enc_value (snd r)]
+  else if mode =? 4 then
+    (* (4 prog (edited positions) y b x) -> judge: (verdict same_binding (stale uses)) *)
+    let t := dec_block 200 (sx_nth x 1) in
+    let S := sx_zs (sx_nth x 2) in
+    let y := sx_z (sx_nth x 3) in
+    let b := sx_z (sx_nth x 4) in
+    let n := sx_z (sx_nth x 5) in
+    SL [ sx_bool (SpecRename.judge_rename t S y b n); sx_bool (SpecRename.same_binding t S y); sx_of_zs (SpecRename.stale t S y b n) ]
   else SZ (-1).
 
 Require Extraction. Require Import ExtrOcamlBasic. Extraction Language OCaml. Extraction "model.ml" run.
